@@ -153,6 +153,11 @@ pub struct SessionSpec {
     /// cache / session directories (so cross-client dedup needs the global-dedup path)
     #[serde(default)]
     pub client: u8,
+    /// simulate a client restart before this session: the client's directories are moved to a new
+    /// path, so every process-global cache keyed by path (shard managers, shard file handles) is
+    /// bypassed and the state is re-loaded from disk as a fresh process would
+    #[serde(default)]
+    pub restart_before: bool,
 }
 
 #[derive(Clone, Debug, Serialize, Deserialize, PartialEq)]
@@ -290,8 +295,9 @@ pub fn session_strategy(frag: bool, max_files: usize) -> impl Strategy<Value = S
         proptest::bool::weighted(0.35),
         proptest::collection::vec(0u8..4, 1..6),
         prop_oneof![4 => Just(0u8), 1 => Just(1u8), 1 => Just(2u8)],
+        proptest::bool::weighted(0.3),
     )
-        .prop_map(|(files, concurrent, yields, client)| SessionSpec { files, concurrent, yields, client })
+        .prop_map(|(files, concurrent, yields, client, restart_before)| SessionSpec { files, concurrent, yields, client, restart_before })
 }
 
 pub fn history_strategy(frag: bool, max_sessions: usize, max_files: usize) -> impl Strategy<Value = History> {
@@ -501,14 +507,14 @@ pub fn threadpool() -> Arc<ThreadPool> {
     TP.get_or_init(|| Arc::new(ThreadPool::new().expect("runtime"))).clone()
 }
 
-pub fn make_config(base: &Path, salt: [u8; 32], global_dedup: bool, client: u8) -> Arc<TranslatorConfig> {
-    let path = base.join("xet");
-    std::fs::create_dir_all(&path).unwrap();
-    let cpath = if client == 0 { path.clone() } else { base.join(format!("client{client}")) };
+pub fn make_config(base: &Path, salt: [u8; 32], global_dedup: bool, client: u8, epoch: u32) -> Arc<TranslatorConfig> {
+    let store = base.join("store");
+    std::fs::create_dir_all(&store).unwrap();
+    let cpath = base.join(format!("client{client}-e{epoch}"));
     std::fs::create_dir_all(&cpath).unwrap();
     Arc::new(TranslatorConfig {
         data_config: DataConfig {
-            endpoint: Endpoint::FileSystem(path.join("xorbs")),
+            endpoint: Endpoint::FileSystem(store),
             compression: Default::default(),
             auth: None,
             prefix: "default".into(),
@@ -548,6 +554,7 @@ pub struct SessionObs {
     pub shards_before: BTreeSet<String>,
     pub shards_after: BTreeSet<String>,
     pub cache_shards_after: BTreeSet<String>,
+    pub cache_dir: PathBuf,
     pub client: u8,
 }
 
@@ -561,17 +568,10 @@ pub struct HistoryObs {
 
 impl HistoryObs {
     pub fn xorb_dir(&self) -> PathBuf {
-        self.base.path().join("xet/xorbs/xorbs")
+        self.base.path().join("store/xorbs")
     }
     pub fn shard_dir(&self) -> PathBuf {
-        self.base.path().join("xet/xorbs/shards")
-    }
-    pub fn shard_cache_dir(&self, client: u8) -> PathBuf {
-        if client == 0 {
-            self.base.path().join("xet/shard-cache")
-        } else {
-            self.base.path().join(format!("client{client}/shard-cache"))
-        }
+        self.base.path().join("store/shards")
     }
 }
 
@@ -658,13 +658,24 @@ async fn run_history_async(h: History, mut opts: RunOpts, tp: Arc<ThreadPool>) -
     let base = tempfile::Builder::new().prefix("xvs-").tempdir_in(crate::engine::work_dir()).map_err(|e| format!("[sig:infra] tempdir: {e}"))?;
     let mut salt = [0u8; 32];
     Sm64(h.salt_seed).fill(&mut salt);
-    let config0 = make_config(base.path(), salt, h.global_dedup, 0);
+    let config0 = make_config(base.path(), salt, h.global_dedup, 0, 0);
+    let mut epochs: BTreeMap<u8, u32> = BTreeMap::new();
     let mut obs = HistoryObs { conf: conf.clone(), sessions: Vec::new(), base, config: config0.clone(), salt };
     let xorb_dir = obs.xorb_dir();
     let shard_dir = obs.shard_dir();
     for (si, s) in h.sessions.iter().enumerate() {
         let plan = opts.plans.get(&si).cloned().unwrap_or_default();
-        let config = make_config(obs.base.path(), salt, h.global_dedup, s.client);
+        let epoch = epochs.entry(s.client).or_insert(0);
+        if s.restart_before {
+            let old = obs.base.path().join(format!("client{}-e{}", s.client, *epoch));
+            if old.exists() {
+                let new = obs.base.path().join(format!("client{}-e{}", s.client, *epoch + 1));
+                std::fs::rename(&old, &new).map_err(|e| format!("[sig:infra] restart rename: {e}"))?;
+                *epoch += 1;
+            }
+        }
+        let config = make_config(obs.base.path(), salt, h.global_dedup, s.client, *epoch);
+        obs.config = config.clone();
         let cache_dir = config.shard_config.cache_directory.clone();
         let store_path = match &config.data_config.endpoint {
             Endpoint::FileSystem(p) => p.clone(),
@@ -734,6 +745,7 @@ async fn run_history_async(h: History, mut opts: RunOpts, tp: Arc<ThreadPool>) -
             shards_before,
             shards_after: ls(&shard_dir),
             cache_shards_after: ls(&cache_dir),
+            cache_dir: cache_dir.clone(),
             client: s.client,
         });
         if let Some(cb) = opts.after_session.as_mut() {
